@@ -145,7 +145,8 @@ def jnum_texts(fr):
         out += [t + ".0", t + ".00", t + "e0", t + "E+0"]
         if t.endswith("0") and t not in ("0", "-0"):
             out.append(t[:-1] + "e1")
-        out.append(t + "0e-1")
+        if t not in ("0", "-0"):      # "00e-1" is not a JSON number literal (json.Marshal refuses such a json.Number)
+            out.append(t + "0e-1")
     else:
         out += [t + "0", t + "e0"]
     return out
